@@ -3,7 +3,7 @@
    insertion sort (Python list.sort / sorted are stable), decimal value of a digit string.
    Executable definitions only; proofs are in RUtilProofs.v. *)
 From Coq Require Import List NArith Bool.
-From MV Require Import Base.PyStr.
+From MV Require Import Base.PyStr Base.Res.
 Import ListNotations.
 Open Scope N_scope.
 
@@ -65,3 +65,10 @@ End Sort.
 
 (* ---- decimal value of a string of ASCII digits (big endian) ---- *)
 Definition dval (s : str) : N := fold_left (fun a c => a * 10 + (c - 48)) s 0.
+
+(* a for loop whose body can raise: fold_left in the Res monad *)
+Fixpoint fold_res {S A : Type} (f : S -> A -> res S) (l : list A) (s : S) : res S :=
+  match l with
+  | [] => Ok s
+  | x :: l' => do s' <- f s x; fold_res f l' s'
+  end.
